@@ -1,3 +1,4 @@
+import Driver.ContextManager
 import Driver.ExitStack
 import Driver.GroupBy
 import Driver.Tools
@@ -9,6 +10,7 @@ def dispatch (j : Json) : Except String Json := do
   | "exitstack" => Drv.ExitStack.run j
   | "groupby" => Drv.GroupBy.run j
   | "tool" => Drv.Tools.run j
+  | "contextmanager" => Drv.ContextManager.run j
   | _ => throw s!"unknown machine {m}"
 
 partial def loop (h : IO.FS.Stream) (out : IO.FS.Stream) : IO Unit := do
